@@ -71,6 +71,8 @@ var defects = []defect{
 	{"implementer field I! where O! is declared (supertype below non-null)", true},
 	{"implementer field O! where I! is declared - valid", false},
 	{"implementer field [String]! where [String!]! is declared", true},
+	{"argument-less interface field: implementer adds a required argument", true},
+	{"argument-less interface field: implementer adds an optional argument - valid", false},
 }
 
 type built struct {
@@ -155,10 +157,17 @@ func build(d map[int]bool, appendOrder int) built {
 	case on("implementer field list where"):
 		sType = graphql.NewList(graphql.String)
 	}
+	var sArgs graphql.FieldConfigArgument
+	switch {
+	case on("argument-less interface field: implementer adds a required"):
+		sArgs = graphql.FieldConfigArgument{"r": &graphql.ArgumentConfig{Type: graphql.NewNonNull(graphql.Int)}}
+	case on("argument-less interface field: implementer adds an optional"):
+		sArgs = graphql.FieldConfigArgument{"r": &graphql.ArgumentConfig{Type: graphql.Int}}
+	}
 	oFieldsFn := func() graphql.Fields {
 		fs := graphql.Fields{
 			"x":  &graphql.Field{Type: graphql.String, Args: oArgs},
-			"s":  &graphql.Field{Type: sType},
+			"s":  &graphql.Field{Type: sType, Args: sArgs},
 			"y":  &graphql.Field{Type: graphql.Int},
 			"e":  &graphql.Field{Type: E},
 			"ki": &graphql.Field{Type: I},
@@ -261,7 +270,15 @@ func build(d map[int]bool, appendOrder int) built {
 	}
 	U := graphql.NewUnion(graphql.UnionConfig{Name: nm("U", "6U", on("union named")), Types: members, ResolveType: func(p graphql.ResolveTypeParams) *graphql.Object { return O }})
 
+	// an interface nobody implements, whose field arguments use types found nowhere else
+	LE := graphql.NewEnum(graphql.EnumConfig{Name: "LE", Values: graphql.EnumValueConfigMap{"L1": &graphql.EnumValueConfig{Value: 1}}})
+	LIn2 := graphql.NewInputObject(graphql.InputObjectConfig{Name: "LIn2", Fields: graphql.InputObjectConfigFieldMap{"e": &graphql.InputObjectFieldConfig{Type: LE}}})
+	LIn := graphql.NewInputObject(graphql.InputObjectConfig{Name: "LIn", Fields: graphql.InputObjectConfigFieldMap{"n": &graphql.InputObjectFieldConfig{Type: LIn2}}})
+	L := graphql.NewInterface(graphql.InterfaceConfig{Name: "L", Fields: graphql.Fields{
+		"lf": &graphql.Field{Type: graphql.String, Args: graphql.FieldConfigArgument{"a": &graphql.ArgumentConfig{Type: graphql.NewList(LIn)}}}},
+		ResolveType: func(p graphql.ResolveTypeParams) *graphql.Object { return nil }})
 	qFields := graphql.Fields{
+		"l":  &graphql.Field{Type: L},
 		"a":  &graphql.Field{Type: graphql.String},
 		"o":  &graphql.Field{Type: O},
 		"i":  &graphql.Field{Type: I},
